@@ -259,6 +259,14 @@ def regen_all():
             parsertab.generate()
     except Exception as e:
         notes.append("parsertab: %s" % (str(e)[:300],))
+    try:
+        import tailtab
+        info = buildimpl.build("plain")
+        with Lock(os.path.join(SCRATCH, "lake.lock")):
+            tailtab.write(info["src"], os.path.join(LEAN, "NeverModel", "Gen"))
+    except Exception as e:
+        # an unrecognised shape of front/tailrec.c: the table is left as it was, the check that owns it (C13) reports the broken tie
+        notes.append("tailtab: %s" % (str(e)[:300],))
     return notes
 
 def proof_stage(rep, prop_module, extra_targets=("nmdrv",), search=None, required=()):
